@@ -58,7 +58,7 @@ def swarm(rng: random.Random, prop: str, tier: str) -> dict:
         "reinvert": p.get("reinvert", 0.0),
         "flags": {k: True for k in ("bursty", "wild_edges", "division_bias", "explicit_tracks", "iou_toggle", "toggle_ids", "trap", "io", "subs") if p.get(k)},
         "subset": p.get("subset", 0.5),
-        "f2": 0.0,
+        "f2": rng.choice([0.0, 0.0, 0.6]) if p.get("io") else 0.0,
     }
     return cfg
 
